@@ -53,13 +53,15 @@ def cmd_check(prop, tier, seed):
         known, unlisted = triage(rep)
         selftest = None
         from . import selftest as st
-        selftest = st.run(prop, tier, seed)
-        if selftest.get('missed'):
-            raise AnalysisError('self-test: {} control mutant(s) not detected: {}'.format(
-                len(selftest['missed']), ', '.join(selftest['missed'][:5])))
-        if selftest.get('false_alarms'):
-            raise AnalysisError('self-test: {} behaviour-preserving variant(s) raised an alarm: {}'.format(
-                len(selftest['false_alarms']), ', '.join(selftest['false_alarms'][:5])))
+        if not unlisted:
+            # the self-test only matters for a verdict of 0: a violation found on the tree is reported as such
+            selftest = st.run(prop, tier, seed)
+            if selftest.get('missed'):
+                raise AnalysisError('self-test: {} control mutant(s) not detected: {}'.format(
+                    len(selftest['missed']), ', '.join(selftest['missed'][:5])))
+            if selftest.get('false_alarms'):
+                raise AnalysisError('self-test: {} behaviour-preserving variant(s) raised an alarm: {}'.format(
+                    len(selftest['false_alarms']), ', '.join(selftest['false_alarms'][:5])))
     except AnalysisError as e:
         print('ANALYSIS-ERROR property={} {}'.format(prop, e))
         if rep is None:
